@@ -133,6 +133,9 @@ func c12Workload(c *Ctx, fam *report.Family, r *rng.R, nCfg, rounds int) error {
 			}
 		}
 	}
+	// signed packages with different keys and key ids; one large file per package
+	c12Signed(c, fam, tree, 3*rounds)
+	c12LargePayload(c, fam, (rounds+3)/4)
 	for k := 0; k < nCfg; k++ {
 		y := genIsoConfigYAML(r, tree, scripts)
 		if k == 0 {
@@ -214,7 +217,7 @@ func c12EnvInt(name string, def int) int {
 // runC12Child is the workload the race-detector build runs.
 func runC12Child(c *Ctx) error {
 	nCfg, rounds := c12EnvInt("C12_CONFIGS", 6), c12EnvInt("C12_ROUNDS", 8)
-	fam := c.Rep.Family("race-detector", fmt.Sprintf("workload under the race detector: %d generated configurations x %d rounds; variant A: the five formats concurrently from one parsed configuration; variant B: 2..4 goroutines, each parsing its own configuration and packaging all formats; random start offsets 0..300us, GOMAXPROCS in {2,4,16}; the first packagings of the process run concurrently (cold start) before anything is packaged sequentially; every result compared with the sequential one", nCfg, rounds))
+	fam := c.Rep.Family("race-detector", fmt.Sprintf("workload under the race detector: %d generated configurations x %d rounds; variant A: the five formats concurrently from one parsed configuration; variant B: 2..4 goroutines, each parsing its own configuration and packaging all formats; random start offsets 0..300us, GOMAXPROCS in {2,4,16}; the first packagings of the process run concurrently (cold start) before anything is packaged sequentially; every result compared with the sequential one; plus signed deb (debsign, dpkg-sig) and rpm packages with three keys / key ids from 8 goroutines (compared on success and on the issuer key id of every signature - signatures are not byte-reproducible); plus one 3 MiB file packaged in all formats from 8 goroutines under GOMAXPROCS 4 and 2 (byte-compared)", nCfg, rounds))
 	return c12Workload(c, fam, c.R.Fork("c12-race"), nCfg, rounds)
 }
 
@@ -307,7 +310,7 @@ var c12Fatal = regexp.MustCompile(`(?m)^(fatal error: .*|panic: .*)$`)
 
 func runC12(c *Ctx) error {
 	// (1) without the race detector, in a child process of this very binary
-	fam := c.Rep.Family("concurrent-equals-sequential", "in a child process of the harness (no race detector; a fatal runtime error of the child - concurrent map access, say - is a finding with the child's seed as replay): generated configurations x rounds; variant A: the five formats concurrently from one parsed configuration (each goroutine its own Get/WithDefaults/Package); variant B: 2..4 goroutines, each parsing its own configuration and packaging all formats; random start offsets 0..300us, GOMAXPROCS in {2,4,16}; every result byte-compared with the result of five sequential packagings of a freshly parsed configuration; non-trivial = every compared package")
+	fam := c.Rep.Family("concurrent-equals-sequential", "in a child process of the harness (no race detector; a fatal runtime error of the child - concurrent map access, say - is a finding with the child's seed as replay): generated configurations x rounds; variant A: the five formats concurrently from one parsed configuration (each goroutine its own Get/WithDefaults/Package); variant B: 2..4 goroutines, each parsing its own configuration and packaging all formats; random start offsets 0..300us, GOMAXPROCS in {2,4,16}; every result byte-compared with the result of five sequential packagings of a freshly parsed configuration; plus signed deb (debsign, dpkg-sig) and rpm packages with three keys / key ids from 8 goroutines (compared on success and on the issuer key id of every signature - signatures are not byte-reproducible); plus one 3 MiB file packaged in all formats from 8 goroutines under GOMAXPROCS 4 and 2 (byte-compared); non-trivial = every compared package")
 	{
 		self, err := os.Executable()
 		if err != nil {
